@@ -56,7 +56,7 @@ def main() -> int:
                     print(f"   {m['name']}: repo tests FAIL on this mutant: {r.stdout.strip().splitlines()[-1:]}")
             for pid in m["checks"]:
                 t0 = time.monotonic()
-                env = {**os.environ, "REPID_SRC": str(dst), "VERIF_EVIDENCE_DIR": str(ROOT / ".work" / "mut-evidence"),
+                env = {**os.environ, "REPID_SRC": str(dst), "VERIF_CASE_LIMIT_S": "30", "VERIF_EVIDENCE_DIR": str(ROOT / ".work" / "mut-evidence"),
                        "VERIF_REPLAY_DIR": str(ROOT / ".work" / "mut-replays")}
                 cmd = ["/venv/bin/python", "-m", "harness.run", pid, "--tier", tier]
                 if m.get("only"):
